@@ -12,6 +12,16 @@ import (
 	ptypes "github.com/elys-network/elys/x/parameter/types"
 )
 
+// subTotalCommitted subtracts coins from the chain-wide committed total without
+// letting any denom go below zero (the total may lag behind the per-account ledger).
+func subTotalCommitted(total sdk.Coins, coins sdk.Coins) sdk.Coins {
+	for _, coin := range coins {
+		amount := math.MinInt(coin.Amount, total.AmountOf(coin.Denom))
+		total = total.Sub(sdk.NewCoin(coin.Denom, amount))
+	}
+	return total
+}
+
 func (k Keeper) UncommitTokens(ctx sdk.Context, addr sdk.AccAddress, denom string, amount math.Int, isLiquidation bool) error {
 	assetProfile, found := k.assetProfileKeeper.GetEntry(ctx, denom)
 	if !found {
